@@ -496,6 +496,9 @@ def run(plan, ch, want_log=False):
             undelivered = [repr(d) for d in job.ext_outputs if d not in b.delivered_payload]
             if undelivered and not ready and set(b.finished) == set(job.tasks):
                 viol.append(("C01", "requested_output_never_fetched", undelivered[:4], {}))
+            elif undelivered:
+                # the controller waits for ever with nothing in flight: whatever the reason, the caller never gets what it asked for
+                viol.append(("C01", "requested_output_never_delivered_run_waits_for_ever", undelivered[:4], {}))
         if ginfo is not None and ginfo["expect_failure"] and v.cls == "wait_with_nothing_outstanding":
             # a generator that did not yield what its node declares was not reported: the controller waits for ever for the missing output
             viol.append(("C10", "count_mismatch_not_reported", (ginfo["failed"], v.detail), {}))
@@ -503,6 +506,8 @@ def run(plan, ch, want_log=False):
             b.probes["no_shutdown_after_violation"] += 1
     except Spin:
         viol.append(("C03", "spin", dict(undispatched=sorted(set(job.tasks) - set(b.dispatched))), dict(inverted=bool(b.inverted_tasks), swapped=b.swapped)))
+        if any(d not in b.delivered_payload for d in job.ext_outputs):
+            viol.append(("C01", "requested_output_never_delivered_run_spins", [repr(d) for d in job.ext_outputs if d not in b.delivered_payload][:4], {}))
     except Exception as e:
         tb = traceback.format_exc().strip().split("\n")
         where = next((l.strip() for l in reversed(tb) if "/cascade/" in l), tb[-3].strip() if len(tb) > 2 else "")
